@@ -669,12 +669,19 @@ class _Reader:
         if c.tag == tt("region"):
           self.doc.regions.append(self.region(c, llang, lspace))
 
-  def anim(self, s, target: AbsEl):
+  def anim(self, s, target: AbsEl, sync=None):
     """`set` child: one style attribute + begin / dur / end relative to the begin of the parent element.
-    Returns the offset of its end from the parent element's begin (None = indefinite)."""
+    Returns the offset of its end from the parent element's begin (None = indefinite).
+    `sync` is given for a set in a sequential container: its syncbase is the end of the previous child and its implicit
+    duration is zero instead of indefinite."""
     b, dur, end = self.times_of(s)
-    begin = b or Fraction(0)
-    e = self.active_end(Fraction(0), begin, dur, end, None)
+    if sync is None:
+      begin = b or Fraction(0)
+      e = self.active_end(Fraction(0), begin, dur, end, None)
+    else:
+      begin = sync + (b or Fraction(0))
+      e = self.active_end(sync, begin, dur, end, Fraction(0))
+      b = begin if begin != 0 else None
     props = self.own_styles(s)
     n_style_attrs = sum(1 for q in s.attrib if q in LOOKUP)
     if n_style_attrs > 1:
@@ -807,7 +814,18 @@ class _Reader:
       ck = self.kind_of(c) if isinstance(c.tag, str) else None
       if c.tag == tt("set"):
         if seq:
-          raise Unsupported("set-in-seq")
+          # a set takes part in the sequence like any other timed child (zero implicit duration)
+          if blocked:
+            self.skip_count(c)
+          else:
+            self.info.classes.add("set-in-seq")
+            e = self.anim(c, a, sync=cur)
+            if e < cur + (self.times_of(c)[0] or Fraction(0)):
+              raise Unsupported("end-before-begin-in-seq")
+            cur = e
+            implicit = e
+          text_item(c.tail)
+          continue
         e = self.anim(c, a)
         if self.set_counts:
           implicit = None if (e is None or implicit is None) else max(implicit, e)
